@@ -2,6 +2,8 @@
 use crate::common::*;
 use clarabel::solver::SolverStatus;
 use serde_json::json;
+use vkit::cones::ConeT;
+use vkit::dense::Dense;
 use vkit::gen::{self, GenOpts};
 use vkit::problem::{self, status_name, Problem};
 use vkit::{Ctx, Rng};
@@ -55,7 +57,42 @@ pub fn run(ctx: &mut Ctx) {
             let mut o = GenOpts { kinds: gen::all_kinds(), ..Default::default() };
             o.nmax = *rng.choose(&[3, 8, 16]);
             o.mmax = *rng.choose(&[8, 20, 40]);
+            // a slice of the dual-infeasible family gets what its generator leaves out: equality rows (orthogonal
+            // to the unbounded ray, so the ray stays one), symmetric cones only and loose inequalities - the class
+            // that takes the KKT-based initialisation and finds its starting slacks already well inside
+            let with_equalities = !primal_family && rng.bool(0.2);
+            if with_equalities {
+                o.kinds = vec!["NN", "SOC", "NN"];
+            }
             let (mut p, _wit) = if primal_family { gen::primal_infeasible(&mut rng, &o) } else { gen::dual_infeasible(&mut rng, &o) };
+            if with_equalities && _wit.len() == p.n() {
+                let (n, m) = (p.n(), p.m());
+                let k = rng.usize(1, 2);
+                let xx: f64 = _wit.iter().map(|v| v * v).sum::<f64>().max(1e-300);
+                let a = Dense::from_csc(&p.A);
+                let mut a2 = Dense::zeros(m + k, n);
+                // equality rows first, then the original rows
+                for t in 0..k {
+                    let mut row: Vec<f64> = (0..n).map(|_| rng.range(-1.0, 1.0)).collect();
+                    let d: f64 = row.iter().zip(&_wit).map(|(u, v)| u * v).sum();
+                    for j in 0..n {
+                        row[j] -= d * _wit[j] / xx;
+                        a2.set(t, j, row[j]);
+                    }
+                }
+                for i in 0..m {
+                    for j in 0..n {
+                        a2.set(k + i, j, a.get(i, j));
+                    }
+                }
+                let loose = 10f64.powf(rng.range(1.0, 2.5));
+                let mut b2: Vec<f64> = (0..k).map(|_| rng.range(-0.5, 0.5)).collect();
+                b2.extend(p.b.iter().map(|v| v * loose));
+                let mut cones2 = vec![ConeT::ZeroConeT(k)];
+                cones2.extend(p.cones.iter().cloned());
+                p = Problem { P: p.P.clone(), q: p.q.clone(), A: a2.to_csc(), b: b2, cones: cones2 };
+                ctx.bump("dual_infeasible_instances_with_equality_rows");
+            }
             let ill = rng.bool(0.4);
             if ill {
                 let dec = *rng.choose(&[1.0, 2.0, 4.0]);
